@@ -341,7 +341,8 @@ func c01TagClass(c *c01Case, B int) string {
 // c01CheckChunked: one (file, B, reader kind).
 func c01CheckChunked(env *Env, c *c01Case, B int, variant string, starts map[int]bool) {
 	data := []byte(c.Text)
-	cl := c01TagClass(c, B)
+	cl := c01TagClass(c, B)  // coverage class: where the first buffer ends
+	fcl := c.Fmt + "/chunked" // violation class
 	rc := *c
 	rc.B, rc.Variant, rc.Stage = B, variant, "chunked"
 	c01Count(env, cl)
@@ -350,7 +351,7 @@ func c01CheckChunked(env *Env, c *c01Case, B int, variant string, starts map[int
 		return
 	}
 	if st != "" {
-		c01Fail(env, "C01.chunk."+st, cl, fmt.Sprintf("ReadSeqFileChunk(B=%d, %s reader) on a %d-byte %s file: %s after %d chunks %v",
+		c01Fail(env, "C01.chunk."+st, fcl, fmt.Sprintf("ReadSeqFileChunk(B=%d, %s reader) on a %d-byte %s file: %s after %d chunks %v",
 			B, variant, len(data), c.Fmt, st, len(chunks), fatalMessages()), rc)
 		return
 	}
@@ -361,18 +362,18 @@ func c01CheckChunked(env *Env, c *c01Case, B int, variant string, starts map[int
 	c01Count(env, fmt.Sprintf("%s/chunks=%d", c.Fmt, nc))
 	for k, ck := range chunks {
 		if ck.order != k {
-			c01Fail(env, "C01.chunk.order", cl, fmt.Sprintf("B=%d: chunk %d carries order %d", B, k, ck.order), rc)
+			c01Fail(env, "C01.chunk.order", fcl, fmt.Sprintf("B=%d: chunk %d carries order %d", B, k, ck.order), rc)
 			return
 		}
 	}
 	cuts, why := c01Locate(data, chunks)
 	if why != "" {
-		c01Fail(env, "C01.chunk.cover", cl, fmt.Sprintf("B=%d %s: %s", B, variant, why), rc)
+		c01Fail(env, "C01.chunk.cover", fcl, fmt.Sprintf("B=%d %s: %s", B, variant, why), rc)
 		return
 	}
 	for _, ct := range cuts {
 		if !starts[ct.from] {
-			c01Fail(env, "C01.chunk.boundary", cl, fmt.Sprintf("B=%d %s: chunk %d starts at offset %d (%q...), not at a record start %v",
+			c01Fail(env, "C01.chunk.boundary", fcl, fmt.Sprintf("B=%d %s: chunk %d starts at offset %d (%q...), not at a record start %v",
 				B, variant, ct.order, ct.from, clip(c.Text[ct.from:]), c.Starts), rc)
 			return
 		}
@@ -385,13 +386,13 @@ func c01CheckChunked(env *Env, c *c01Case, B int, variant string, starts map[int
 		buf := ck.data
 		st := guarded(func() { sl, _ = parser("verif", bytes.NewBuffer(buf)) })
 		if st != "" {
-			c01Fail(env, "C01.parse.fatal", cl, fmt.Sprintf("B=%d: parser on chunk %d [%d,%d) of a well-formed file: %s %v", B, k, cuts[k].from, cuts[k].to, st, fatalMessages()), rc)
+			c01Fail(env, "C01.parse.fatal", fcl, fmt.Sprintf("B=%d: parser on chunk %d [%d,%d) of a well-formed file: %s %v", B, k, cuts[k].from, cuts[k].to, st, fatalMessages()), rc)
 			return
 		}
 		got = append(got, c01ObserveSlice(sl)...)
 	}
 	if field, d := c01Diff(got, c.Recs); field != "" {
-		c01Fail(env, "C01.chunked."+field, cl, fmt.Sprintf("B=%d %s, %d chunks: %s", B, variant, len(chunks), d), rc)
+		c01Fail(env, "C01.chunked."+field, fcl, fmt.Sprintf("B=%d (first buffer ends in %s) %s reader, %d chunks: %s", B, cl, variant, len(chunks), d), rc)
 		return
 	}
 	c01Pass(env)
